@@ -11,6 +11,13 @@ SITE = None
 _LETTERS = "ACDEFGHIKLMNPQRSTVWYBJOUXZ"
 
 
+HANG_PROBES = {
+    "o_short": [{"c0": a, "rest": b} for a in "[({<-/+^" for b in ["", "]", "[", "^", "/", "+", "-"]],
+    "o_any": [{"s": x} for x in ["", "[", "(", "{", "<", "/", "+", "^"]],
+    "o_deferred": [{"tail": x} for x in ["", "]", "[", "q"]],
+}
+
+
 def install_stubs() -> None:
     # S1: AMINO_ACIDS (a set; membership hashes, hashing realises) -> the same 26 letters as a str
     PP.AMINO_ACIDS = "".join(sorted(PP.AMINO_ACIDS))
